@@ -236,7 +236,7 @@ func (s *safetyRun) nonNilTerm(t *flow.Term, facts []*flow.Term) (bool, string) 
 // PckCertificateExtensions (a nil there is a caller bug, not an input).
 func (s *safetyRun) trustedParam(t *flow.Term) bool {
 	switch t.Name {
-	case "rtmr.ParseCcelWithTdQuote#3:opts", "pcs.PckCertificateExtensions#0:cert":
+	case "rtmr.ParseCcelWithTdQuote#3", "pcs.PckCertificateExtensions#0":
 		return true
 	}
 	return false
